@@ -579,6 +579,416 @@ def gen_sanit_cases(rng, tier):
 
 
 # ----------------------------------------------------------------------------
+# the "submit" stream: where each back-end starts the job of an instance
+# ----------------------------------------------------------------------------
+# For every back-end the REAL adapter writes the script of a generated step
+# (real header) into its workspace and `submit(step, script, workspace)` is
+# called with the process layer stubbed (Slurm / LSF / local: every door to a
+# process records the command line and the cwd= keyword; Flux: an in-memory
+# `flux` module records the jobspec).  Observable: the effective working
+# directory of the started job and its stdout / stderr paths; monitor:
+# SafePath.submit_ok (Props/C10.v: C10_submit_in_workspace).
+class _Proc:
+    def __init__(self, text, out):
+        self.text, self.out, self.pid, self.returncode = text, out, 4242, 0
+        self.stdout = self.stderr = None
+
+    def communicate(self, *a, **k):
+        return (self.out, "") if self.text else (self.out.encode("utf-8"), b"")
+
+    def wait(self, *a, **k):
+        return 0
+
+    def poll(self):
+        return 0
+
+    def kill(self):
+        pass
+
+    terminate = kill
+
+    def __enter__(self):
+        return self
+
+    def __exit__(self, *a):
+        return False
+
+
+class _JobID(int):
+    @property
+    def f58(self):
+        return "f%d" % int(self)
+
+    @property
+    def dec(self):
+        return str(int(self))
+
+
+class _Jobspec:
+    def __init__(self, how, command, kw):
+        self.how, self.command, self.kw, self.attrs = how, command, kw, {}
+        self.cwd = self.environment = self.duration = self.stdout = self.stderr = None
+
+    @classmethod
+    def from_command(cls, command, **kw):
+        return cls("command", command, kw)
+
+    @classmethod
+    def from_nest_command(cls, command, **kw):
+        return cls("nest", command, kw)
+
+    @classmethod
+    def from_batch_command(cls, *a, **kw):
+        return cls("batch", a, kw)
+
+    def setattr(self, k, v):
+        self.attrs[k] = v
+
+    def setattr_shell_option(self, k, v):
+        self.attrs["shell." + k] = v
+
+
+class SubmitStubs:
+    """Process layer + flux module replaced while one adapter's submit runs."""
+
+    PROC_SPOTS = ("maestrowf.utils", "maestrowf.interfaces.script.slurmscriptadapter",
+                  "maestrowf.interfaces.script.lsfscriptadapter",
+                  "maestrowf.interfaces.script.localscriptadapter",
+                  "maestrowf.interfaces.script.fluxscriptadapter")
+
+    def __init__(self):
+        self.procs, self.jobspecs, self.opened, self._undo = [], [], [], []
+
+    def _set(self, obj, attr, val):
+        missing = object()
+        old = obj.__dict__.get(attr, missing) if hasattr(obj, "__dict__") else getattr(obj, attr, missing)
+        self._undo.append((obj, attr, old, missing))
+        setattr(obj, attr, val)
+
+    def __enter__(self):
+        import importlib
+        import subprocess
+        import types
+        me = self
+
+        def launch(cmd, text, k):
+            me.procs.append((cmd, k.get("cwd")))
+            line = cmd if isinstance(cmd, str) else " ".join(str(c) for c in cmd)
+            out = "Job <4711> is submitted to queue <q>.\n" if "bsub" in line else "Submitted batch job 4711\n"
+            return _Proc(text, out)
+
+        def start_process(cmd, cwd=None, env=None, shell=True, **k):
+            return launch(cmd, True, {"cwd": cwd})
+
+        def popen(cmd, *a, **k):
+            return launch(cmd, bool(k.get("universal_newlines") or k.get("text") or k.get("encoding")), k)
+
+        def rec_open(path, mode="r", *a, **k):
+            if any(c in mode for c in "wax+"):
+                me.opened.append(path)
+            return open(path, mode, *a, **k)
+
+        for name in self.PROC_SPOTS:
+            try:
+                m = importlib.import_module(name)
+            except Exception:
+                continue
+            for attr, fn in (("start_process", start_process), ("Popen", popen)):
+                if attr in m.__dict__:
+                    self._set(m, attr, fn)
+        self._set(subprocess, "Popen", popen)
+        try:
+            self._set(importlib.import_module("maestrowf.interfaces.script.localscriptadapter"), "open", rec_open)
+        except Exception:
+            pass
+        # ---- the in-memory flux module
+        flux = types.ModuleType("flux")
+        job = types.ModuleType("flux.job")
+        const = types.ModuleType("flux.constants")
+
+        class Flux:
+            def __init__(self, *a, **k):
+                pass
+
+            def attr_get(self, name):
+                return "0.49.0" if name == "version" else ""
+
+        def submit(handle, jobspec, *a, **k):
+            me.jobspecs.append(jobspec)
+            return _JobID(4711)
+        flux.Flux, flux.job, flux.constants = Flux, job, const
+        job.JobspecV1, job.submit, job.JobID = _Jobspec, submit, _JobID
+        const.FLUX_JOB_PENDING, const.FLUX_JOB_RUNNING, const.FLUX_JOB_INACTIVE = 6, 24, 32
+        mods = {"flux": flux, "flux.job": job, "flux.constants": const}
+        for k, v in mods.items():
+            self._undo.append((sys.modules, k, sys.modules.get(k), None))
+            sys.modules[k] = v
+        targets = ["maestrowf.abstracts.interfaces.flux"]
+        for f in sorted(glob.glob(os.path.join(common.REPO, "maestrowf/interfaces/script/_flux", "*.py"))):
+            if os.path.basename(f) != "__init__.py":
+                targets.append("maestrowf.interfaces.script._flux." + os.path.basename(f)[:-3])
+        for name in targets:
+            try:
+                m = importlib.import_module(name)
+            except Exception:
+                continue
+            for attr, modname in (("flux", "flux"), ("flux_job", "flux.job"), ("flux_constants", "flux.constants")):
+                self._set(m, attr, mods[modname])
+            for v in list(vars(m).values()):
+                if isinstance(v, type) and "flux_handle" in vars(v):
+                    self._set(v, "flux_handle", None)
+        return self
+
+    def __exit__(self, *a):
+        for obj, attr, old, missing in reversed(self._undo):
+            try:
+                if isinstance(obj, dict):
+                    if old is None:
+                        obj.pop(attr, None)
+                    else:
+                        obj[attr] = old
+                elif old is missing:
+                    delattr(obj, attr)
+                else:
+                    setattr(obj, attr, old)
+            except Exception:
+                pass
+        return False
+
+
+def submit_backends():
+    try:
+        from maestrowf.interfaces.script import FluxFactory
+        vers = sorted(FluxFactory.factories.keys(), reverse=True)
+    except Exception:
+        vers = []
+    direct = []          # interface modules the factory did not register: driven directly
+    for f in sorted(glob.glob(os.path.join(common.REPO, "maestrowf/interfaces/script/_flux", "flux*.py"))):
+        b = os.path.basename(f)[:-3]
+        if b.replace("flux", "").replace("_", ".") not in vers:
+            direct.append("fluxif:" + b)
+    return ["local", "slurm", "lsf"] + ["flux:" + v for v in vers] + direct
+
+
+SUB_BATCH = {"host": "h", "bank": "b", "queue": "q", "nodes": "1"}
+SUB_CHOICES = {
+    "reservation": (None, None, "", "res1"),
+    "walltime": (None, 0, "0", "inf", "", "00:10:00", "01:00:00", 5, "30"),
+    "qos": (None, None, "", "high"),
+    "exclusive": (None, None, False, True),
+    "gpus": (None, None, "", "2", 1),
+    "nodes": (None, "", 1, "2"),
+    "procs": (None, "", 1, "4"),
+    "cores per task": (None, None, "", 2),
+    "priority": (None, None, "high", "low"),
+    "nested": (None, None, True),
+    "bank": (None, None, "otherbank"),
+    "queue": (None, None, "otherq"),
+    "restart": ("", "", "true"),
+}
+SUB_NAMES = (("run", None, None), ("run", "X.1", None), ("post-proc", "SIZE.10.ITER.3", None),
+             ("run", "X.1", "0a1b2c3d4e5f60718293a4b5c6d7e8f9"))
+
+
+def gen_submit_cases(rng, tier):
+    """Every back-end x {reservation absent / own} x {walltime absent, 0, "inf", h:m:s}
+    exhaustively (the rest of the run keys random), plus fully random ones."""
+    out = []
+    n_rand = 300 if tier == "thorough" else 24
+    for be in submit_backends():
+        combos = [(r, w) for r in (None, "res1") for w in (None, 0, "inf", "00:10:00")]
+        combos += [None] * n_rand
+        for fixed in combos:
+            run = {}
+            for k, vals in SUB_CHOICES.items():
+                v = rng.choice(vals)
+                if v is not None:
+                    run[k] = v
+            if fixed is not None:
+                for k, v in zip(("reservation", "walltime"), fixed):
+                    run.pop(k, None)
+                    if v is not None:
+                        run[k] = v
+            step, combo, nick = rng.choice(SUB_NAMES)
+            out.append({"kind": "submit", "backend": be, "run": run, "step": step, "combo": combo, "nick": nick,
+                        "batch_reservation": rng.choice((None, None, "batchres")),
+                        "launcher": rng.random() < 0.5})
+    return out
+
+
+def _opt_values(tokens, shorts, longs):
+    """values of `-o X`, `--opt X`, `--opt=X` among shell tokens"""
+    res, i = [], 0
+    while i < len(tokens):
+        t_ = tokens[i]
+        if t_ in shorts or t_ in longs:
+            if i + 1 < len(tokens):
+                res.append(tokens[i + 1])
+            i += 2
+            continue
+        for l_ in longs:
+            if t_.startswith(l_ + "="):
+                res.append(t_[len(l_) + 1:])
+        i += 1
+    return res
+
+
+def _header_tokens(script, tag):
+    import shlex
+    toks = []
+    try:
+        for line in open(script, errors="replace"):
+            if line.startswith(tag):
+                try:
+                    toks += shlex.split(line[len(tag):])
+                except ValueError:
+                    toks += line[len(tag):].split()
+    except OSError:
+        pass
+    return toks
+
+
+def run_submit(case, scratch):
+    """One submit case against the real adapter; returns the observation."""
+    import shlex
+    I = _impl()
+    base = os.path.join(scratch, "s")
+    shutil.rmtree(base, ignore_errors=True)
+    root = os.path.join(base, *NEST)
+    obs = {"exc": None, "ws": None, "cwd": None, "outs": [], "started": 0, "where": None}
+    try:
+        with SubmitStubs() as stubs:
+            try:
+                from maestrowf.datastructures.core import StudyStep
+                parts = [case["step"]] + ([case["nick"] or case["combo"]] if case["combo"] else [])
+                ws = I["utils"].make_safe_path(root, *parts)
+                os.makedirs(ws)
+                step = StudyStep()
+                step.name = case["step"] + ("_" + case["combo"] if case["combo"] else "")
+                if case["nick"]:
+                    step.nickname = case["nick"]
+                step.description = "generated by the C10 check"
+                step.run.update(case["run"])
+                step.run["cmd"] = ("$(LAUNCHER) true" if case.get("launcher") and case["backend"] != "local" and
+                                   (step.run.get("procs") or step.run.get("nodes")) else "true")
+                be = case["backend"]
+                batch = dict(SUB_BATCH)
+                if case.get("batch_reservation"):
+                    batch["reservation"] = case["batch_reservation"]
+                if be == "local":
+                    adapter = I["Factory"].get_adapter("local")()
+                elif be.startswith("flux:"):
+                    adapter = I["Factory"].get_adapter("flux")(version=be[5:], **batch)
+                elif be.startswith("fluxif:"):
+                    adapter = None
+                else:
+                    adapter = I["Factory"].get_adapter(be)(**batch)
+                if adapter is None:
+                    # an interface class the factory does not offer here: call its submit the way
+                    # FluxScriptAdapter.submit does (nodes, procs, cores per task, path, cwd, walltime seconds)
+                    import importlib
+                    m = importlib.import_module("maestrowf.interfaces.script._flux." + be[7:])
+                    cls = [v for v in vars(m).values() if isinstance(v, type) and "submit" in vars(v) and
+                           getattr(v, "__module__", "") == m.__name__][0]
+                    script = os.path.join(ws, step.name + ".flux.sh")
+                    open(script, "w").write("#!/bin/bash\ntrue\n")
+                    wt = step.run.get("walltime")
+                    secs = 600 if isinstance(wt, str) and ":" in wt else (int(float(wt) * 60) if str(wt).isdigit() else 0)
+                    cls.submit(int(step.run.get("nodes") or 1), int(step.run.get("procs") or 1), 1, script, ws, secs,
+                               ngpus=int(step.run.get("gpus") or 0), job_name=step.name,
+                               force_broker=bool(step.run.get("nested")), waitable=False)
+                else:
+                    _, script, _ = adapter.write_script(ws, step)
+                    del stubs.procs[:], stubs.jobspecs[:], stubs.opened[:]
+                    adapter.submit(step, script, ws)
+            except Exception as e:
+                obs["exc"] = type(e).__name__
+            procs, jobspecs, opened = list(stubs.procs), list(stubs.jobspecs), list(stubs.opened)
+        canon = lambda p: p if p is None else _canon(str(p), root, "")     # noqa: E731
+        obs["ws"] = canon(locals().get("ws"))
+        obs["started"] = len(procs) + len(jobspecs)
+        script = locals().get("script")
+        if jobspecs:
+            js = jobspecs[-1]
+            obs["where"] = "jobspec.cwd"
+            obs["cwd"] = canon(js.cwd)
+            obs["outs"] = [canon(str(x).replace("{{id}}", "4711")) for x in (js.stdout, js.stderr) if x]
+        elif procs:
+            cmd, kw_cwd = procs[-1]
+            toks = list(map(str, cmd)) if isinstance(cmd, (list, tuple)) else shlex.split(cmd.replace("<", " < "))
+            prog = os.path.basename(toks[0]) if toks else ""
+            dirs, outs = [], []
+            if prog == "sbatch":
+                htoks = _header_tokens(script, "#SBATCH") if script else []
+                dirs = _opt_values(htoks, ("-D",), ("--chdir", "--workdir")) + \
+                    _opt_values(toks, ("-D",), ("--chdir", "--workdir"))
+                outs = _opt_values(htoks + toks, ("-o", "-e"), ("--output", "--error"))
+            elif prog == "bsub":
+                htoks = _header_tokens(script, "#BSUB") if script else []
+                dirs = _opt_values(htoks, ("-cwd",), ()) + _opt_values(toks, ("-cwd",), ())
+                outs = _opt_values(htoks + toks, ("-o", "-e", "-oo", "-eo"), ())
+            if dirs:                     # the command line wins over the header, the last option wins
+                d = dirs[-1]
+                obs["where"] = "directory option"
+                obs["cwd"] = canon(d if os.path.isabs(d) or kw_cwd is None else os.path.join(kw_cwd, d))
+                if not os.path.isabs(d) and kw_cwd is None:
+                    obs["cwd"] = None
+            else:
+                obs["where"] = "cwd keyword"
+                obs["cwd"] = canon(kw_cwd)
+            obs["outs"] = [canon(o.replace("%J", "4711").replace("%j", "4711")) for o in outs] + \
+                [canon(o) for o in opened]
+            obs["cmd"] = " ".join(toks).replace(root, ROOT)[:300]
+    except Exception as e:               # the stubs themselves against a mutated tree
+        obs["exc"] = obs["exc"] or ("harness:" + type(e).__name__)
+    finally:
+        shutil.rmtree(base, ignore_errors=True)
+    return obs
+
+
+def gallina_submit(obs):
+    return "mksobs %s %s %s" % (G.g_str(obs["ws"] or ""), g_ostr(obs["cwd"]), g_strs(obs["outs"]))
+
+
+def run_submit_stream(ck, rng, hist):
+    """Returns the number of cases; reports violations through ck."""
+    cases = gen_submit_cases(rng, ck.tier)
+    scratch = os.path.join(common.WORK, "C10_submit_run")
+    shutil.rmtree(scratch, ignore_errors=True)
+    os.makedirs(scratch)
+    try:
+        obss = [run_submit(c, scratch) for c in cases]
+    finally:
+        shutil.rmtree(scratch, ignore_errors=True)
+    judged = [(c, o) for c, o in zip(cases, obss) if o["started"] and o["ws"]]
+    for c, o in zip(cases, obss):
+        key = "submit:%s:%s" % (c["backend"], "raised:" + o["exc"] if o["exc"] and not o["started"] else
+                                 "started via " + str(o["where"]))
+        hist[key] = hist.get(key, 0) + 1
+        ck.count("submit|" + json.dumps([c["backend"], sorted(c["run"].items(), key=str), c["nick"] is not None],
+                                        default=str), nontrivial=bool(o["started"]))
+    lits = [gallina_submit(o) for _, o in judged]
+    bad, errs = common.coq_failing("C10_submit", HEADER, "sobs", "submit_ok", lits)
+    for i in bad:
+        c, o = judged[i]
+        ck.violation("the job %s starts for a step with run keys %s is not started in the instance's workspace "
+                     "(effective working directory %r via %s) or its stdout/stderr leave it" %
+                     (c["backend"], json.dumps(c["run"], sort_keys=True, default=str), o["cwd"], o["where"]),
+                     dict(c, observed=o))
+    for e in errs:
+        ck.mismatch("coqc failed on cases file " + os.path.basename(e[0]), None, e[1])
+    never = sorted({c["backend"] for c in cases} - {c["backend"] for c, _ in judged})
+    for be in never:
+        ck.mismatch("submit stream: no job of back-end %s was ever started (all raised)" % be,
+                    None, json.dumps([o["exc"] for c, o in zip(cases, obss) if c["backend"] == be][:8]))
+    hist["submit_cases"] = len(cases)
+    hist["submit_judged"] = len(judged)
+    for c, o in judged[:2]:
+        ck.sample({"submit_case": c, "observed": o}, limit=5)
+    return len(cases)
+
+
+# ----------------------------------------------------------------------------
 # evaluation
 # ----------------------------------------------------------------------------
 def load_corpus():
@@ -781,6 +1191,7 @@ def run(ck):
     for i in bads[:5]:
         a, bs, r = sc[i]
         ck.mismatch("make_safe_path differs from the model", {"base": a, "args": bs, "result": r})
+    n_submit = run_submit_stream(ck, rng, hist)
     for k in range(len(pc)):
         ck.count("p%d" % k, nontrivial=False)
     for k in range(len(sc)):
@@ -808,7 +1219,14 @@ def run(ck):
         "(sig_collide / sig_slash / sig_degenerate, evaluated in Coq) that is listed in KNOWN_FINDINGS.txt.  Plus posixpath.join/normpath (exhaustive over {/,.,a} up to the "
         "bound, and random) and make_safe_path (every code point < 0x250, random unicode) against the model.  "
         "distinct = (instances, flags); non-trivial = at least two instances")
-    ck.cov["traces_validated_against_impl"] = len(cases)
+    ck.cov["rule"] += (
+        "  Submit stream: for every back-end (local, slurm, lsf, each flux interface version) the real adapter writes "
+        "the script of a generated step and submit(step, script, workspace) runs with the process layer / flux module "
+        "stubbed; every optional run key varies (reservation, walltime absent/0/inf/h:m:s, qos, exclusive, gpus, "
+        "nodes, procs, cores per task, priority, nested, bank/queue, restart; batch reservation); submit_ok evaluated "
+        "in Coq on the effective working directory (directory option of sbatch/bsub, else cwd= keyword; jobspec.cwd) "
+        "and the stdout/stderr paths of the started job")
+    ck.cov["traces_validated_against_impl"] = len(cases) + n_submit
     ck.cov["input_distribution"] = hist
 
     def search():
@@ -890,6 +1308,20 @@ def shrink(case):
 def replay(ck, path):
     j = json.load(open(path))
     j = j.get("case", j)
+    if j is not None and j.get("kind") == "submit":
+        case = {k: v for k, v in j.items() if k != "observed"}
+        scratch = os.path.join(common.WORK, "C10_replay_submit")
+        os.makedirs(scratch, exist_ok=True)
+        o = run_submit(case, scratch)
+        shutil.rmtree(scratch, ignore_errors=True)
+        print("implementation:")
+        print(json.dumps(o, indent=1, default=str))
+        bad, errs = common.coq_failing("C10_replay_submit_cases", HEADER, "sobs", "submit_ok", [gallina_submit(o)])
+        if errs or bad or not (o["started"] and o["ws"]):
+            print("VIOLATION property=C10 replay=%s%s" % (path, "" if bad else " no-failing-input-found"))
+            return 1
+        print("C10 ok (replay): the job is started in the workspace, stdout/stderr stay inside it")
+        return 0
     if j is None or "steps" not in j:
         print("replay file holds no study input (broken proof or correspondence without a failing input):")
         print(json.dumps(json.load(open(path)), indent=1)[:4000])
